@@ -157,14 +157,18 @@ class Path(object):
         if pid == 0:
             try:
                 os.close(rfd)
-                # a fresh, non-incremental solver: z3 then applies its logic-specific tactics (bit-blasting for QF_FP,
-                # nlsat for QF_NRA) instead of the incremental core that check-with-assumptions would use
-                s2 = z3.SolverFor(self.cfg.logic) if self.cfg.logic else z3.Solver()
+                if self.cfg.logic:
+                    # a fresh, non-incremental solver: z3 then applies its logic-specific tactics (bit-blasting for QF_FP)
+                    # instead of the incremental core that check-with-assumptions would use (measured: 1-17 s vs minutes)
+                    s2 = z3.SolverFor(self.cfg.logic)
+                    s2.add(self.solver.assertions())
+                    for e in extra:
+                        s2.add(e)
+                    extra = []
+                else:
+                    s2 = self.solver
                 s2.set("timeout", int(self.cfg.qtimeout_ms))
-                s2.add(self.solver.assertions())
-                for e in extra:
-                    s2.add(e)
-                r = str(s2.check())
+                r = str(s2.check(*extra))
                 vals = None
                 if r == 'sat' and eval_terms is not None:
                     m = s2.model()
